@@ -141,7 +141,7 @@ class Instrumented:
         orig_run_tape = F.run_tape
         pend = [False]
         import time as _time
-        case_deadline = _time.time() + 1.0
+        case_deadline = _time.time() + 6.0
         def run_tape(tape, stack, cache, additional_flags={}):
             level[0] += 1
             tr.run_tapes += 1
